@@ -1166,4 +1166,105 @@ theorem handshake_initF {b : Bytes} {c : Conn} (h : Drv.handshake b = some c) : 
       · cases h
     · cases h)
 
+/-! ### the `received` ledgers are the WINDOW_UPDATE frames the read loop went through, nothing else -/
+
+/-- the frames `rdFrames` hands to `rdFrame`, in order (it stops where `rdFrames` stops) -/
+def taken : List RdFrame → Conn → List Frame.Frame
+  | [], _ => []
+  | .unknown :: fs, c => taken fs c
+  | .bad _ _ :: _, _ => []
+  | .frame f :: fs, c => if c.stuck then [] else f :: (if (rdFrame c f).2 then [] else taken fs (rdFrame c f).1)
+
+theorem recvFrames_eq (fs : List RdFrame) : ∀ (c : Conn) (g : Led), recvFrames fs c g = (taken fs c).foldl Led.recv g := by
+  induction fs with
+  | nil => intros; rfl
+  | cons x xs ih =>
+    intro c g
+    cases x with
+    | unknown => exact ih c g
+    | bad a b => rfl
+    | frame f =>
+      simp only [recvFrames, taken]
+      split
+      · rfl
+      · split
+        · rfl
+        · simp only [List.foldl_cons]; exact ih _ _
+
+/-- the frames the read loop goes through in one step -/
+def stepTaken (c : Conn) : Event → List Frame.Frame
+  | .bytes b => if c.stuck || c.dead then [] else taken (bytesSplit c b).1 { c with rdBuf := (bytesSplit c b).2 }
+  | _ => []
+
+/-- … and in a run -/
+def runTaken : Conn → List Event → List Frame.Frame
+  | _, [] => []
+  | c, e :: es => stepTaken c e ++ runTaken (step c e).1 es
+
+/-- the increment a frame carries for stream `sid` (0: the connection) -/
+def wuOn (sid : Nat) (f : Frame.Frame) : Nat :=
+  match f.body with
+  | .windowUpdate inc => if f.stream = sid then inc else 0
+  | _ => 0
+
+theorem Led.recv_inc (g : Led) (f : Frame.Frame) :
+    (g.recv f).connInc = g.connInc + wuOn 0 f ∧ ∀ sid, sid ≠ 0 → (g.recv f).strInc sid = g.strInc sid + wuOn sid f := by
+  unfold Led.recv wuOn
+  cases f.body with
+  | windowUpdate inc =>
+    simp only
+    by_cases h0 : f.stream = 0
+    · simp only [h0, beq_self_eq_true, if_true]
+      refine ⟨trivial, fun sid hs => ?_⟩
+      have : ¬ 0 = sid := fun e => hs e.symm
+      simp [this]
+    · have h0' : (f.stream == 0) = false := by simpa using h0
+      simp only [h0', Bool.false_eq_true, if_false, h0, Nat.add_zero, true_and]
+      intro sid _
+      by_cases hs : sid = f.stream
+      · simp [bump, hs]
+      · have : ¬ f.stream = sid := fun e => hs e.symm
+        simp [bump, hs, this]
+  | settings s => simp only; split <;> exact ⟨rfl, fun _ _ => rfl⟩
+  | _ => exact ⟨rfl, fun _ _ => rfl⟩
+
+theorem foldl_recv_inc (fs : List Frame.Frame) : ∀ g : Led,
+    (fs.foldl Led.recv g).connInc = g.connInc + (fs.map (wuOn 0)).sum ∧
+    ∀ sid, sid ≠ 0 → (fs.foldl Led.recv g).strInc sid = g.strInc sid + (fs.map (wuOn sid)).sum := by
+  induction fs with
+  | nil => intro g; exact ⟨rfl, fun _ _ => rfl⟩
+  | cons f fs ih =>
+    intro g
+    obtain ⟨i1, i2⟩ := ih (g.recv f)
+    obtain ⟨r1, r2⟩ := g.recv_inc f
+    simp only [List.foldl_cons, List.map_cons, List.sum_cons]
+    exact ⟨by rw [i1, r1]; omega, fun sid hs => by rw [i2 sid hs, r2 sid hs]; omega⟩
+
+theorem recvEvent_eq (g : Led) (c : Conn) (ev : Event) : recvEvent g c ev = (stepTaken c ev).foldl Led.recv g := by
+  cases ev with
+  | bytes b =>
+    simp only [recvEvent, stepTaken]
+    split
+    · rfl
+    · exact recvFrames_eq _ _ _
+  | _ => rfl
+
+/-- **the `received` ledgers are the increments of the WINDOW_UPDATE frames the read loop went through in the run**:
+those on stream 0 for the connection, those on `sid` for stream `sid` -/
+theorem grun_inc : ∀ (evs : List Event) (g : Led) (c : Conn),
+    (grun g c evs).1.connInc = g.connInc + ((runTaken c evs).map (wuOn 0)).sum ∧
+    ∀ sid, sid ≠ 0 → (grun g c evs).1.strInc sid = g.strInc sid + ((runTaken c evs).map (wuOn sid)).sum := by
+  intro evs
+  induction evs with
+  | nil => intro g c; exact ⟨rfl, fun _ _ => rfl⟩
+  | cons e es ih =>
+    intro g c
+    obtain ⟨i1, i2⟩ := ih (gstep g c e) (step c e).1
+    obtain ⟨f1, f2⟩ := foldl_recv_inc (stepTaken c e) g
+    simp only [grun, runTaken, List.map_append, List.sum_append]
+    have hg1 : (gstep g c e).connInc = (recvEvent g c e).connInc := rfl
+    have hg2 : (gstep g c e).strInc = (recvEvent g c e).strInc := rfl
+    rw [recvEvent_eq] at hg1 hg2
+    exact ⟨by rw [i1, hg1, f1]; omega, fun sid hs => by rw [i2 sid hs, hg2, f2 sid hs]; omega⟩
+
 end H2.Client
